@@ -187,6 +187,38 @@ theorem item_ext {s s' : State} {a k : Nat} (h : Item s a k) (e : Ext s s') : It
     (by have := h.2.2; have := e.cur; omega) (fun g hg _ => e.glab g hg)
 
 
+/-! ### content: the name an item holds -/
+
+/-- at `a` the buffer holds (directly, or through its pointer) a stored name whose labels match
+    the name `n` as names are compared in mode `m` (octet for octet unless `m` is `Standard`) -/
+def NameIs (s : State) (a : Nat) (m : CMode) (n : WName) : Prop :=
+  ∃ q ls, Hop s.octets s.cursor a q ∧ StoredAt s q ls ∧ labelsMatch (effMode m) n.labels ls = true
+
+theorem nameIs_of_reads {s : State} {a : Nat} {m : CMode} {n : WName} {ls : List Label} (h : ReadsAt s a ls)
+    (hm : labelsMatch (effMode m) n.labels ls = true) : NameIs s a m n := by
+  obtain ⟨q, cs', hop, _, hn, _⟩ := h
+  exact ⟨q, ls, hop, nameAtC_forget hn, hm⟩
+
+/-- `NameIs` along any change that keeps the octets from `lo` up to the cursor, does not shrink the
+    cursor and keeps the recorded label starts (all at or above `lo`) -/
+theorem nameIs_frame {s s' : State} {a lo : Nat} {m : CMode} {n : WName} (h : NameIs s a m n)
+    (hg12 : ∀ g ∈ s.gLabels, lo ≤ g)
+    (hpre : ∀ i, lo ≤ i → i < s.cursor → s'.octets[i]? = s.octets[i]?) (hc : s.cursor ≤ s'.cursor)
+    (hg : ∀ g ∈ s.gLabels, g ∈ s'.gLabels) : NameIs s' a m n := by
+  obtain ⟨q, ls, hop, hst, hm⟩ := h
+  have hq : q ∈ s.gLabels := (nameAt_start hst).1
+  refine ⟨q, ls, hop_frame hop hpre hc (hg12 q hq), ?_, hm⟩
+  exact nameAt_frame (lo := lo) hst (fun x hx => hg x hx) (fun x hx => hg12 x hx) hpre hc
+
+theorem nameIs_ext {s s' : State} {a : Nat} {m : CMode} {n : WName} (h : NameIs s a m n) (e : Ext s s') :
+    NameIs s' a m n :=
+  nameIs_frame (lo := 0) h (fun _ _ => Nat.zero_le _) (fun i _ hi => e.pre i hi) e.cur (fun g hg => e.glab g hg)
+
+theorem nameIs_fields {s s' : State} {a : Nat} {m : CMode} {n : WName} (h : NameIs s a m n)
+    (ho : s'.octets = s.octets) (hc : s'.cursor = s.cursor) (hg : s'.gLabels = s.gLabels) : NameIs s' a m n := by
+  unfold NameIs StoredAt GL at h ⊢
+  rw [ho, hc, hg]; exact h
+
 /-! ### what one `add_rr` appends, structurally -/
 
 theorem M.bind_ok_inv {α β} {f : M α} {g : α → M β} {s s' : State} {b : β}
@@ -223,8 +255,9 @@ theorem addRr_item (hint : Hint) (owner : WName) (ty cls ttl : Nat) (rd : List U
       be16 s'.octets (s.cursor + k + 8) = (s'.cursor - (s.cursor + k + 10)) % 65536 ∧
       (BytesAt s'.octets (s.cursor + k) (u16be ty) ∧ BytesAt s'.octets (s.cursor + k + 2) (u16be cls) ∧
         BytesAt s'.octets (s.cursor + k + 4) (u32be ttl)) ∧
-      ∃ p sB, writeHintedName hint owner { s with gCtx := .owner } = (.ok p, sB) ∧
-        sB.cursor = s.cursor + k ∧ ∀ i, i < sB.cursor → s'.octets[i]? = sB.octets[i]? := by
+      (∃ p sB, writeHintedName hint owner { s with gCtx := .owner } = (.ok p, sB) ∧
+        sB.cursor = s.cursor + k ∧ ∀ i, i < sB.cursor → s'.octets[i]? = sB.octets[i]?) ∧
+      NameIs s' s.cursor s.mode owner := by
   rw [addRr_eq] at h
   obtain ⟨_, s1, h1, h⟩ := M.bind_ok_inv h
   obtain ⟨_, s2, h2, h⟩ := M.bind_ok_inv h
@@ -245,10 +278,11 @@ theorem addRr_item (hint : Hint) (owner : WName) (ty cls ttl : Nat) (rd : List U
     | panic => cases h1
     | ok p =>
       simp only [Prod.mk.injEq, true_and] at h1
-      obtain ⟨hwB, _, _, _, _, ⟨ls, hrd, _⟩, hck⟩ := hs.ok p rfl
+      obtain ⟨hwB, hdenB, _, _, _, ⟨ls, hrd, hmtB⟩, hck⟩ := hs.ok p rfl
       have hcurB : s.cursor ≤ sB.cursor := hf.cur
-      simp only at hck hrd hcurB
+      simp only at hck hrd hcurB hmtB hdenB
       have itB : Item sB s.cursor (sB.cursor - s.cursor) := item_of_reads hrd hck (by omega)
+      have nmB : NameIs sB s.cursor s.mode owner := nameIs_of_reads hrd hmtB
       -- the fixed fields
       unfold tryPushU16 at h2 h3
       unfold tryPushU32 at h4
@@ -314,7 +348,7 @@ theorem addRr_item (hint : Hint) (owner : WName) (ty cls ttl : Nat) (rd : List U
                 obtain ⟨hsz, hs'⟩ := write_ok_inv _ _ _ _ _ h
                 have hcH : s4.cursor + 2 ≤ sH.cursor := hfr.cur
                 have preH : ∀ i, i < s4.cursor + 2 → sH.octets[i]? = s4.octets[i]? := fun i hi => hfr.pre i hi
-                refine ⟨sB.cursor - s.cursor, ?_, ?_, ?_, ?_, p, sB, rfl, by omega, ?_⟩
+                refine ⟨sB.cursor - s.cursor, ?_, ?_, ?_, ?_, ⟨p, sB, rfl, by omega, ?_⟩, ?_⟩
                 · -- the item, moved along
                   refine item_move (lo := 0) itB (fun _ _ => Nat.zero_le _) ?_ ?_ ?_
                   · intro i _ hi
@@ -357,6 +391,69 @@ theorem addRr_item (hint : Hint) (owner : WName) (ty cls ttl : Nat) (rd : List U
                   rw [hs']
                   show (writeAt sH.octets s4.cursor _)[i]? = _
                   rw [writeAt_get_lt _ _ _ _ (by omega), preH _ (by omega), pre4 _ hi]
+                · -- the content, moved along: fixed fields, RDATA, RDLENGTH written back
+                  obtain ⟨q, ls', hopB, hstB, hmB⟩ := nmB
+                  -- a valid state where RDLENGTH is reserved
+                  have hden1 : ∀ q, p = some q → Den { sB with gCtx := NameCtx.none } q owner :=
+                    fun q hq => den_ext (by constructor <;> simp) (hdenB q hq)
+                  have wB' := winv_ext (s' := { sB with gCtx := NameCtx.none }) hwB (by constructor <;> simp)
+                    rfl rfl rfl rfl
+                  have w1 : WInv s1 := by
+                    rw [← h1]
+                    exact ⟨wB'.c12, wB'.cur_av, wB'.av_size, wB'.g12, wB'.labs, wB'.qn, den_anchorOK hden1, wB'.rd,
+                      wB'.clabs⟩
+                  have hroom2 : (u16be ty).length ≤ s1.available - s1.cursor := by
+                    unfold tryPush at h2
+                    split at h2
+                    · cases h2
+                    · split at h2
+                      · rename_i hh; exact hh
+                      · cases h2
+                  have w2 : WInv s2 := by rw [e2]; exact winv_push w1 _ hroom2
+                  have hroom3 : (u16be cls).length ≤ s2.available - s2.cursor := by
+                    unfold tryPush at h3
+                    split at h3
+                    · cases h3
+                    · split at h3
+                      · rename_i hh; exact hh
+                      · cases h3
+                  have w3 : WInv s3 := by rw [e3]; exact winv_push w2 _ hroom3
+                  have hroom4 : (u32be ttl).length ≤ s3.available - s3.cursor := by
+                    unfold tryPush at h4
+                    split at h4
+                    · cases h4
+                    · split at h4
+                      · rename_i hh; exact hh
+                      · cases h4
+                  have w4 : WInv s4 := by rw [e4]; exact winv_push w3 _ hroom4
+                  -- the stored name, state by state
+                  have st4 : StoredAt s4 q ls' := by
+                    refine nameAt_frame (lo := 0) hstB ?_ (fun _ _ => Nat.zero_le _) (fun i _ hi => pre4 i hi)
+                      (by omega)
+                    intro x hx; show x ∈ s4.gLabels; rw [g4]; exact hx
+                  have stH : StoredAt sH q ls' := by
+                    have stG : StoredAt { s4 with cursor := s4.cursor + 2 } q ls' :=
+                      nameAt_frame (lo := 0) st4 (fun _ hx => hx) (fun _ _ => Nat.zero_le _) (fun _ _ _ => rfl)
+                        (by show s4.cursor ≤ s4.cursor + 2; omega)
+                    exact storedAt_ext hfr stG
+                  have st' := storedAt_patch w4 (u16be ((sH.cursor - s4.cursor - 2) % 65536)) rfl hfr q ls' stH
+                  rw [hs']
+                  refine ⟨q, ls', ?_, st', hmB⟩
+                  -- the hop reads below the old cursor of the name
+                  have hqa := (hop_le hopB).1
+                  cases hopB with
+                  | here hq' hb' hnp =>
+                    refine .here (by show s.cursor < sH.cursor; omega) ?_ hnp
+                    show (writeAt sH.octets s4.cursor _)[s.cursor]? = _
+                    rw [writeAt_get_lt _ _ _ _ (by omega), preH _ (by omega), pre4 _ hq']; exact hb'
+                  | jump hq' hb1 hb2 hp hlt hb3 hnp =>
+                    refine .jump (by show s.cursor + 1 < sH.cursor; omega) ?_ ?_ hp hlt ?_ hnp
+                    · show (writeAt sH.octets s4.cursor _)[s.cursor]? = _
+                      rw [writeAt_get_lt _ _ _ _ (by omega), preH _ (by omega), pre4 _ (by omega)]; exact hb1
+                    · show (writeAt sH.octets s4.cursor _)[s.cursor + 1]? = _
+                      rw [writeAt_get_lt _ _ _ _ (by omega), preH _ (by omega), pre4 _ hq']; exact hb2
+                    · show (writeAt sH.octets s4.cursor _)[_]? = _
+                      rw [writeAt_get_lt _ _ _ _ (by omega), preH _ (by omega), pre4 _ (by omega)]; exact hb3
 
 
 /-- **the owner of a record decodes to the name given**, in every compression mode: after a
@@ -370,7 +467,7 @@ theorem addRr_owner_decodes (hint : Hint) (owner : WName) (ty cls ttl : Nat) (rd
     (hmsg : ∀ i, i < s'.cursor → msg[i]? = s'.octets[i]?) :
     ∃ w k, specDecodeName msg s.cursor = some (w, owner.len, k) ∧ s.cursor + k + 10 ≤ s'.cursor ∧
       w.map lowerU8 = owner.wire.map lowerU8 ∧ (s.mode ≠ .standard → w = owner.wire) := by
-  obtain ⟨k, hit, hlen, _, _, p, sB, hwn, hcB, hpre⟩ := addRr_item hint owner ty cls ttl rd s s' hw hwf hh h
+  obtain ⟨k, hit, hlen, _, _, ⟨p, sB, hwn, hcB, hpre⟩, _⟩ := addRr_item hint owner ty cls ttl rd s s' hw hwf hh h
   have e1 := ext_setCtx s .owner
   have hwA : WInv { s with gCtx := .owner } := winv_ext hw e1 rfl rfl rfl rfl
   have hhA : HintOK { s with gCtx := .owner } hint owner := hintOK_ext hh e1 rfl rfl rfl rfl
@@ -426,7 +523,7 @@ theorem addRr_round_trip (hint : Hint) (owner : WName) (ty cls ttl : Nat) (rd : 
       be16 msg (s.cursor + k) = ty ∧ be16 msg (s.cursor + k + 2) = cls ∧ be32 msg (s.cursor + k + 4) = ttl ∧
       be16 msg (s.cursor + k + 8) = (s'.cursor - (s.cursor + k + 10)) % 65536 := by
   obtain ⟨w, k, hd, hk10, hcase, hexact⟩ := addRr_owner_decodes hint owner ty cls ttl rd s s' hw hwf hh h msg hmsg
-  obtain ⟨k', hit, hlen, hb, ⟨t1, t2, t3⟩, p, sB, hwn, hcB, hpre⟩ := addRr_item hint owner ty cls ttl rd s s' hw hwf hh h
+  obtain ⟨k', hit, hlen, hb, ⟨t1, t2, t3⟩, ⟨p, sB, hwn, hcB, hpre⟩, _⟩ := addRr_item hint owner ty cls ttl rd s s' hw hwf hh h
   -- both `k`s are the chunk length
   have hkk : k = k' := by
     have hcm : ChunkAt msg s.cursor k' :=
